@@ -96,20 +96,24 @@ namespace sqf::parser::config
         {
             auto it = start;
             auto len = ::sqf::runtime::util::strlen(against);
-            for (size_t i = 0; i < len && it < m_end; i++, ++it)
+            size_t i = 0;
+            for (; i < len && it < m_end; i++, ++it)
             {
                 if ((char)std::tolower(*it) != against[i]) { return 0; }
             }
+            if (i < len) { return 0; } // input ended inside of the keyword
             return it - start;
         }
         size_t len_ident_match(iterator start, const char* against)
         {
             auto it = start;
             auto len = ::sqf::runtime::util::strlen(against);
-            for (size_t i = 0; i < len && it < m_end; i++, ++it)
+            size_t i = 0;
+            for (; i < len && it < m_end; i++, ++it)
             {
                 if ((char)std::tolower(*it) != against[i]) { return 0; }
             }
+            if (i < len) { return 0; } // input ended inside of the keyword
             if (it < m_end && ((char)std::tolower(*it) >= 'a' && (char)std::tolower(*it) <= 'z'))
             {
                 return 0;
@@ -130,31 +134,36 @@ namespace sqf::parser::config
 
                 case etoken::m_line: /* ToDo: Properly handle #line instruction */ {
                     // Check if line comment start
-                    if (len_ident_match(iter, "#line"))
+                    if (len_ident_match(iter, "#line") == 5)
                     {
-                        iter += 6;
+                        auto directive = iter + 5;
+                        directive += len_match<' ', '\t'>(directive);
 
                         // Read in line num
-                        auto start = iter;
-                        for (; iter != m_end && *iter != '\n' && *iter != ' '; iter++);
-                        std::string str_tmp(start, iter);
-                        m_line = static_cast<size_t>(std::stoul(str_tmp));
-
-                        // Try skip to file
-                        iter += len_match<' ', '\t'>(iter);
-                        start = iter;
-                        for (; iter != m_end && *iter != '\n'; iter++);
-                        if (iter != m_end && iter - start >= 2)
+                        auto digits = len_match<'0', '1', '2', '3', '4', '5', '6', '7', '8', '9'>(directive);
+                        if (digits > 0 && digits < 10)
                         {
-                            // Read-in file
-                            m_strings.push_back(new std::string(start + 1, iter - 1));
+                            iter = directive + digits;
+                            std::string str_tmp(directive, iter);
+                            m_line = static_cast<size_t>(std::stoul(str_tmp));
+
+                            // Try skip to file
+                            iter += len_match<' ', '\t'>(iter);
+                            auto start = iter;
+                            for (; iter != m_end && *iter != '\n'; iter++);
+                            if (iter != m_end && iter - start >= 2)
+                            {
+                                // Read-in file
+                                m_strings.push_back(new std::string(start + 1, iter - 1));
+                            }
+
+                            // update column
+                            m_column = 0;
+
+                            // set length
+                            len = iter - m_current;
                         }
-
-                        // update column
-                        m_column = 0;
-
-                        // set length
-                        len = iter - m_current;
+                        // Without a line number this is no line directive: '#' is left to the other token kinds
                     }
                 } break;
                 case etoken::i_comment_line: {
@@ -162,7 +171,7 @@ namespace sqf::parser::config
                     if (is_match_repeated<2, '/'>(iter))
                     {
                         // find line comment end
-                        while (!is_match<'\n'>(++iter));
+                        while (++iter < m_end && !is_match<'\n'>(iter));
 
                         // update position info
                         m_line++;
@@ -179,7 +188,7 @@ namespace sqf::parser::config
                         ++iter;
                         ++iter;
                         // find block comment end
-                        while (!(is_match<'*'>(iter) && is_match<'/'>(iter + 1)))
+                        while (iter < m_end && !(is_match<'*'>(iter) && is_match<'/'>(iter + 1)))
                         {
                             // update position info
                             if (!is_match<'\n'>(iter))
@@ -194,8 +203,8 @@ namespace sqf::parser::config
                             ++iter;
                         }
 
-                        // EOF check
-                        if (is_match<'/'>(iter) && is_match<'/'>(iter + 1))
+                        // Skip the comment end (there is none if the input ended inside of the comment)
+                        if (is_match<'*'>(iter) && is_match<'/'>(iter + 1))
                         {
                             ++iter;
                             ++iter;
@@ -262,6 +271,10 @@ namespace sqf::parser::config
                         {
                             m_line++;
                             m_column = 0;
+                        }
+                        if (iter == m_end)
+                        { // unterminated string: ends with the input
+                            break;
                         }
                         ++iter;
                     }
